@@ -34,6 +34,16 @@ def _case(cid, graph, startcp, icp=1, fcp=4, rh=2, seed=0, kind='complete', sequ
             'policy': {'max_steps': 200, 'p_msg': 0.6, 'p_noise': 0.0, 'outcomes': {}}, 'ops': None}
 
 
+def _start_case(cid, graph, ids, icp=1, fcp=4, rh=2, seed=0, kind='complete'):
+    c = _case(cid, graph, 0, icp=icp, fcp=fcp, rh=rh, seed=seed, kind=kind)
+    c['opts'] = {'starttask': list(ids)}
+    return c
+
+
+# minimal history of the recorded defect (also the witness in findings/C46.json)
+WITNESS_SEQ = _case('c46-seq-parent', '        P1 = """\n b[-P1] => a\n b\n"""', 2, sequential='a')
+
+
 class C46(SchedProp):
     id = 'C46'
     props_modules = ['CylcModel.Props.C46']
@@ -41,6 +51,10 @@ class C46(SchedProp):
         'CylcModel.C46.prestart_not_run',
         'CylcModel.C46.prestart_satisfied',
         'CylcModel.C46.prestart_only_ready',
+        'CylcModel.C46.start_tasks_closure',
+        'CylcModel.C46.start_tasks_loaded',
+        'CylcModel.C46.start_tasks_prestart_not_run',
+        'CylcModel.C46.start_tasks_prestart_satisfied',
     ]
     statement_note = (
         'proof over the Sched model v1 (intervention-free runs), for all instance graphs and all lists of main loops, '
@@ -49,18 +63,29 @@ class C46(SchedProp):
         'the rule of Dependency.get_prerequisite (hypothesis preStartSatB: atoms pointing before the start point are '
         'initially satisfied on instances at or after it; the driver checks it on every extracted graph), every such '
         'atom of every pooled proxy is satisfied in every state; prestart_only_ready - a proxy whose conjunctive '
-        'prerequisites only name pre-start instances never waits. Partial / missing in Sched v1: manual triggering of '
-        'pre-start instances (pre_start_tasks_to_trigger, "unless manually triggered") and start-task selection '
-        '(--start-task, Scheduler._load_pool_from_tasks, "only the start tasks and the instances they lead to run") '
-        'are not modelled, so start_tasks_closure is not stated; restart of a warm-started workflow is not modelled')
+        'prerequisites only name pre-start instances never waits. Start-task starts are modelled as another start-up '
+        'state of the same model (SchedStart.lean: initTasks = spawn_task + force-satisfy + add per start task; the real '
+        'scheduler and the model agree on the generated start-task runs): start_tasks_closure - for all graphs, start '
+        'tasks and op lists every launch and every pooled proxy is a start task, a graph child of one it leads to, or a '
+        'next parentless instance of one; start_tasks_loaded - every start task spawn_task accepts is in the start-up '
+        'pool; start_tasks_prestart_not_run / _satisfied - the two warm-start theorems for start-task runs. '
+        'NOT proved, judged on the real scheduler only: (a) the start point itself (WorkflowConfig.process_start_cycle_point: '
+        '--startcp, or the earliest start-task cycle) - configuration loading is an input of the model; the judge compares '
+        'it with the command line; (b) liveness - a warm-started workflow that finishes (or stalls) has run every instance '
+        'whose dependencies are all on pre-start instances, a start-task run has run its start tasks; this is FALSE for '
+        'the current code for sequential tasks with graph parents (finding sequential-first-instance-never-spawned, repair '
+        'findings/C46-fix-1.diff). Missing in Sched v1: manual triggering of pre-start instances '
+        '(pre_start_tasks_to_trigger, "unless manually triggered"); restart of a warm-started workflow')
     technique = ('inductive invariant (generic Frame over the Sched primitives) lifted over op lists + trace correspondence '
                  'with the real Scheduler + judge on launches, pool statuses and prerequisite atoms')
     trusted = ['the instance graph (prerequisite atoms with their initial satisfied flags) is read off real TaskProxy objects '
                'built for every valid point; the judge checks the pre-start rule on it']
     rule = ('generated integer-cycling workflows (2-6 tasks, 1-3 recurrences, AND/OR triggers, -P1/-P2 inter-cycle offsets, '
-            'absolute triggers ^ / ^+P1 / literal point, sequential tasks, suicide triggers, retries), 70% started with '
-            '--startcp after the initial point, driven through the real Scheduler by a seeded adaptive schedule; plus a fixed '
-            'corpus of warm-start graphs; non-trivial = distinct (kind, warm/cold, ending, launch-count) class per distinct case')
+            'absolute triggers ^ / ^+P1 / literal point, sequential tasks, suicide triggers, retries; inter-cycle offsets '
+            '-P1..-P3; initial points 1, 3, 8, 98 so that cycle points cross 9->10 and 99->100), 70% started with '
+            '--startcp after the initial point, every fourth case started with 1-3 --start-task ids in random cycles, '
+            'driven through the real Scheduler by a seeded adaptive schedule; plus a fixed '
+            'corpus of warm-start and start-task graphs; non-trivial = distinct (kind, warm/cold, ending, launch-count) class per distinct case')
     gen_opts = {'p_startcp': 0.7, 'p_abs': 0.25, 'abs_forms': ['^', '^+P1', 'icp+1'], 'p_intercycle': 0.5,
                 'p_sequential': 0.2, 'max_span': 5,
                 # initial points 8 and 98: the cycle points cross 9 -> 10 / 99 -> 100; offsets longer than one step
@@ -76,6 +101,12 @@ class C46(SchedProp):
             _case('c46-abs1', '        P1 = """\n a[^+P1] => c\n a\n"""', 3),
             _case('c46-abs2', '        P1 = """\n a[^+P2] => c\n a\n"""', 2, rh=3),
             _case('c46-abs3', '        P1 = """\n a[3]:start | b[-P1] => c\n a\n b\n"""', 2, rh=3),
+            WITNESS_SEQ,
+            _case('c46-long-offset', '        P1 = """\n a\n a[-P2] => b\n b => c\n"""', 5, fcp=8, rh=2),
+            _case('c46-long-offset-or', '        P1 = """\n a\n a[-P3] | d[-P2]:start => b\n d\n"""', 5, fcp=9, rh=1),
+            _start_case('c46-start-tasks', '        P1 = """\n a => b => c\n"""', ['9/b', '10/c'], fcp=12),
+            _start_case('c46-start-tasks-3', '        P1 = """\n a => b\n b[-P1] => c\n"""', ['100/a', '99/b', '101/c'],
+                        icp=97, fcp=102),
             _case('c46-seq', '        P1 = """\n a => b\n"""', 2, sequential='a'),
             _case('c46-r1', '        R1 = """\n a\n"""\n        P1 = """\n a[^] => b\n b[-P1] => b\n"""', 2),
         ]
